@@ -2,7 +2,7 @@ import StepModel.Session
 import StepModel.AttrNull
 /-! Line protocol shared by the C14 and C16 drivers (same commands as harness/h_p21.cc where they overlap).
 
-    attrs <full|own> <ENTITY> (<KIND>:<optional 0|1>)*      attribute table of an entity (full = inherited + own, Part 21
+    attrs <full|own> <ENTITY> (<KIND>:<optional 0|1>[:<typeRef 0|1>])*      attribute table of an entity (full = inherited + own, Part 21
                                                           order; own = what a part of a complex instance carries)   -> R ok
     reset <strict 0|1>                                      fresh session                                          -> R reset
     read | append  <inst> | <inst> …                        ReadExchangeFile / AppendExchangeFile                   -> R incr=<k> n=<count> max=<maxFileId>
@@ -44,7 +44,12 @@ def parseAttr (w : String) : Option AttrD :=
   | [k, o] => do
     let k ← Kind.ofName k
     let o ← if o = "1" then some true else if o = "0" then some false else none
-    pure ⟨k, o, false⟩
+    pure ⟨k, o, false, false⟩
+  | [k, o, r] => do     -- r: `Type()` is REFERENCE_TYPE
+    let k ← Kind.ofName k
+    let o ← if o = "1" then some true else if o = "0" then some false else none
+    let r ← if r = "1" then some true else if r = "0" then some false else none
+    pure ⟨k, o, false, r⟩
   | _ => none
 
 /-- the lenient-mode substitution of `STEPattribute::STEPread` applied to the top-level values of one part -/
